@@ -229,6 +229,8 @@ def check_program(ctx, src, stage, do_oracle=True):
             if len(a_out) != len(b_out):
                 # a folded expression became a plain literal; align by evaluating positions through a skeleton comparison
                 a_out = align_outcomes(tree, out_tree)
+            for orig, repl, why in not_left_alone(tree, out_tree):
+                viol = 'literal expression %s %s and is not left as it is: the output has %s in its place' % (orig[:80], why, repl[:80])
             if a_out is not None:
                 for (kb, vb), (ka, va), s in zip(b_out, a_out, before):
                     if kb == 'skip' or ka == 'skip':
@@ -289,6 +291,40 @@ def align_outcomes(tree, out_tree):
                             return False
         return True
     return res if walk(tree, out_tree) else None
+
+
+def not_left_alone(tree, out_tree):
+    """the maximal literal expressions of the input whose evaluation raises or yields NaN, with what stands in their place in the
+    output when that is no longer the same operation (its operands may have been folded; the expression itself must stay)"""
+    bad = []
+    closed_set = set(map(id, literal_subexprs(tree)))
+
+    def is_nan(v):
+        return (isinstance(v, float) and v != v) or (isinstance(v, complex) and (v.real != v.real or v.imag != v.imag))
+
+    def walk(a, b):
+        if id(a) in closed_set:
+            kind, v = outcome(ast.unparse(a))
+            if (kind == 'exc' or (kind == 'ok' and is_nan(v))) and not (isinstance(b, ast.BinOp) and type(b.op) is type(a.op)):
+                bad.append((ast.unparse(a), ast.unparse(b), 'raises ' + str(v) if kind == 'exc' else 'is NaN'))
+            return True
+        if type(a) is not type(b):
+            return False
+        for f in a._fields:
+            x, y = getattr(a, f, None), getattr(b, f, None)
+            if isinstance(x, ast.AST):
+                if not isinstance(y, ast.AST) or not walk(x, y):
+                    return False
+            elif isinstance(x, list):
+                if not isinstance(y, list) or len(x) != len(y):
+                    return False
+                for p, q in zip(x, y):
+                    if isinstance(p, ast.AST):
+                        if not isinstance(q, ast.AST) or not walk(p, q):
+                            return False
+        return True
+    walk(tree, out_tree)
+    return bad
 
 
 def gen_literal(rng, depth):
@@ -387,6 +423,10 @@ def exhaustive_programs():
              'type X = 1 + 2', 'x = 1 if 2 + 3 else 4 + 5', 'lambda a=1 + 2: 3 + 4', 'x = {1 + 2: 3 + 4, **{5 + 6: 7}}', 'x = "a" + "b"', 'x = b"a" * 3',
              'x = 1 + 2 + a', 'x = a + 1 + 2', 'x = a + (1 + 2)', 'x = 1.5 + 2.5', 'x = 0.5 + 0.5', 'x = 100.0 * 10', 'x = 1e16 + 1.0', 'x = 4 - 4.0',
              'x = False - True', 'x = True * 10', 'x = 10 % 3 - 5 % 3', 'x = -7 // 2', 'x = 7 // -2', 'x = -7 % 3', 'x = 7 % -3', 'x = 6 & 3 | 8 ^ 1',
+             # NaN-valued and raising expressions with long spellings (anything would be shorter), also where builtins are rebound
+             'x = 1e999 % 1234567.5', 'x = 1e999 // 1234567.25', 'x = (1e999 - 1e999) * 123456.789', 'x = 1e999 * 0 + 1234567.125', 'x = -1e999 + 1e999 - 1234567.5',
+             'def scale(value, float=False):\n    limit = 1e999 % 1234567.5\n    return value, limit', 'float = int\nx = 1e999 // 1234567.25 + 0.0',
+             'x = 123456789 // (1234567 - 1234567)', 'x = 1234567.5 % (0.5 - 0.5)', 'x = 2.5 ** 123456789 * 1.0', 'x = (1e999 - 1e999) + 1j * 1234567',
              'x = 1 >> 100000000', 'x = 10 ** 30 >> 1000000', 'x = 1 << 4300 * 4', 'x = 123456789 * 987654321 * 123456789 * 987654321']
     return progs + extra
 
